@@ -391,8 +391,7 @@ func (x vc[T]) runChange(e *env, cfg caseCfg) (out []finding) {
 		bad("constructor failed", vfacet, "%s returned (%v, %v) for an encodable value", ctorNames[cfg.Ctor], msg, err)
 		return
 	}
-	var zero T
-	wantType := state.EntityType(zero)
+	wantType := refEntityType[T]()
 	if cfg.Opts&oType != 0 {
 		wantType = customType
 	}
@@ -774,6 +773,26 @@ var (
 	fixU2 = BU{N: -3, B: 0, S: "y/z"}
 	fixV1 = BV{F: 1.5, L: []int{1, 2}, M: map[string]int{"a": 1}}
 )
+
+// refEntityType is the check's own reading of the documented rule for an entity's type
+// name ("if the entity implements TypeNamer, the custom name; otherwise the reflect-based
+// package-qualified name"; for a pointer entity type the zero value is a nil pointer, so a
+// pointer to a zero element is asked): it must not be computed by the code under test, or
+// a name that is wrong for one form of a type (T versus *T) would be expected as well.
+func refEntityType[T any]() string {
+	var zero T
+	var x any = zero
+	if x == nil {
+		return "nil"
+	}
+	if rv := reflect.ValueOf(x); rv.Kind() == reflect.Ptr && rv.IsNil() {
+		x = reflect.New(rv.Type().Elem()).Interface()
+	}
+	if n, ok := x.(interface{ StateTypeName() string }); ok {
+		return n.StateTypeName()
+	}
+	return reflect.TypeOf(x).String()
+}
 
 func uOpt() state.ChangeOption { return state.WithEntityType("U") }
 func vOpt() state.ChangeOption { return state.WithEntityType("V") }
